@@ -13,7 +13,7 @@ ASSUMPTIONS = ['exact real arithmetic; pivots non-zero; the backward-error const
 
 
 class LU(Lin):
-    def __init__(s, T, n, strat, penc=None, recon=False):
+    def __init__(s, T, n, strat, penc=None, recon=False, structure_only=False):
         a = Buf('a', T, n * n); l = Buf('l', T, n * n, 'out'); u = Buf('u', T, n * n, 'out'); args = [a, l, u]
         tt = f'Tensor<{T},{n},{n}>'
         piv = 'Piv' in strat
@@ -26,7 +26,8 @@ class LU(Lin):
             rc = f'{tt} R = reconstruct(L,U{",P" if piv else ""}); ' + copy_out('R', 'r', n * n)
         k = (f'{tt} A(a), L, U; {pdecl} lu<LUCompType::{strat}>(A,L,U{",P" if piv else ""}); ' + copy_out('L', 'l', n * n) + ' ' + copy_out('U', 'u', n * n) + ' ' + pcopy + ' ' + rc)
         Lin.__init__(s, f'lu_{SHORT[T]}_{n}_{strat}{penc or ""}{"_rec" if recon else ""}', T, args, k, f'lu<{strat}> {tt}' + (' + reconstruct' if recon else ''))
-        s.n = n; s.piv = piv; s.penc = penc; s.recon = recon
+        s.n = n; s.piv = piv; s.penc = penc; s.recon = recon; s.structure_only = structure_only
+        if structure_only: s.id += '_struct'; s.budget = 600; s.nameall = False
         if piv: s.max_paths = 80
 
     def path_obligations(s, mod, kp, stats):
@@ -34,7 +35,7 @@ class LU(Lin):
         n = s.n; dom = kp.dom; w = s.w
         A = s.mat(kp, 'a', n, n, symbolic_in=True); L = s.mat(kp, 'l', n, n); U = s.mat(kp, 'u', n, n)
         obls = s.structure(kp, L, lambda i, j: j > i, 0, 'L') + s.structure(kp, L, lambda i, j: i == j, 1, 'L') + s.structure(kp, U, lambda i, j: j < i, 0, 'U')
-        if any(v is None for M_ in (L, U) for r in M_.rows for v in r): return obls
+        if any(v is None for M_ in (L, U) for r in M_.rows for v in r) or s.structure_only: return obls
         na = dom.nameall; dom.nameall = False
         LUm = matmul_fm(dom, L, U, w); dom.nameall = na
         rows = None; extra = []
@@ -96,6 +97,8 @@ def cases(tier, cfg, seed):
             for st in ('SimpleLUPiv', 'BlockLUPiv'):
                 for enc in ('V', 'M'): out.append(LU(T, n, st, enc, recon=(enc == 'V')))
     if tier == 'quick': out.append(LU('float', 4, 'SimpleLU')); out.append(LU('float', 8, 'BlockLU'))
+    # first blocked step (n > 32): exact 0/1 structure of L and U for all A (values outside the bound)
+    out.append(LU('double', 33, 'BlockLU', structure_only=True))
     return out
 
 
